@@ -287,6 +287,26 @@ theorem rosomaxa_trace_meets_spec (c : Cfg α) (rc : RCfg) (hp : TotalPreorder c
     (RInv.empty c) htapes
   simpa [rosomaxaM, RState.empty, ElState.empty] using this
 
+/-- the assumption on the tapes holds in particular when `select` takes nothing from the nodes -/
+theorem tapes_ok_without_node_part (c : Cfg α) (rc : RCfg) (ops : List (Op α))
+    (h : ∀ t, Op.select t ∈ ops → t.extra = []) :
+    ∀ (offered : List α) (s : RState α), HypAll (rosomaxaSpec c) (rosomaxaM c rc) tapeHyp offered s ops := by
+  induction ops with
+  | nil => intro _ _; trivial
+  | cons op ops ih =>
+    intro offered s
+    refine ⟨?_, ih (fun t ht => h t (List.mem_cons_of_mem _ ht)) _ _⟩
+    cases op with
+    | select t => intro x hx; rw [h t (List.mem_cons_self ..)] at hx; simp at hx
+    | add x => trivial
+    | addAll xs => trivial
+    | gen st => trivial
+
+/-- a concrete sequence (with a node part taken from what was offered) meets the assumption on the tapes -/
+example : HypAll (rosomaxaSpec (natCfg 2 2)) (rosomaxaM (natCfg 2 2) ⟨4, 58⟩) tapeHyp [] RState.empty
+    [.add 5, .addAll [7, 3, 3, 4], .gen ⟨.unknown, 10⟩, .select ⟨[1, 0], 2, [7, 4]⟩, .add 2] := by
+  simp [HypAll, tapeHyp, Spec.offeredBy, rosomaxaSpec]
+
 theorem rosomaxa_run_inv (c : Cfg α) (rc : RCfg) (hp : TotalPreorder c.le) (hcap : 0 < c.cap) (hsel : 1 ≤ c.selSize)
     (hfit : ∀ a b, c.fitEq a b = (c.le a b && c.le b a)) (ops : List (Op α)) :
     ∀ (offered : List α) (s : RState α), RInv c offered s →
